@@ -462,8 +462,8 @@ func c04CfgFor(rng *rand.Rand) string {
 func init() {
 	var nLattice, nSeeds, nMut int
 	mon.Register(&mon.Check{
-		ID:   "C04",
-		Rule: "evaluations = Lint*Ex calls under instrumentation. Every registered lint is shadowed by a spy registered through the public Register*Lint API (same metadata, constructor and methods wrapping the real lint's and logging new / Configure / CheckApplies->b / Execute->result); each call's event sequence per lint is checked by a trace automaton: out of source scope (decided by an independent reference: from the construction parameters for generated certificates, from parsed fields otherwise) => NA and no event at all; else new, Configure iff configurable, CheckApplies exactly once in that order; configuration error => fatal and nothing further; false => NA and no Execute; outside the window => NE and no Execute; else exactly one Execute whose return value is the reported status and details; the spy's result equals the un-instrumented lint's. Probe lints cover kind x source x configuration outcome x applicability x window x rule-body outcome (every status, panic). Workload: EKU x policy x SAN scope lattice, corpus, mutants. distinct_nontrivial = distinct inputs traced.",
+		ID:          "C04",
+		Rule:        "evaluations = Lint*Ex calls under instrumentation. Every registered lint is shadowed by a spy registered through the public Register*Lint API (same metadata, constructor and methods wrapping the real lint's and logging new / Configure / CheckApplies->b / Execute->result); each call's event sequence per lint is checked by a trace automaton: out of source scope (decided by an independent reference: from the construction parameters for generated certificates, from parsed fields otherwise) => NA and no event at all; else new, Configure iff configurable, CheckApplies exactly once in that order; configuration error => fatal and nothing further; false => NA and no Execute; outside the window => NE and no Execute; else exactly one Execute whose return value is the reported status and details; the spy's result equals the un-instrumented lint's. Probe lints cover kind x source x configuration outcome x applicability x window x rule-body outcome (every status, panic). Workload: EKU x policy x SAN scope lattice, corpus, mutants. distinct_nontrivial = distinct inputs traced.",
 		Assumptions: []string{"spies are registered under <name>__spy; configuration sections for them use that name", "the scope reference is the property's wording: no EKU at all / anyEKU / serverAuth / BR policy; e-mail SAN with no EKU, anyEKU or emailProtection, or an S/MIME BR policy; code-signing policy"},
 		Setup: func(c *mon.Ctx) error {
 			if err := setupCommon(c); err != nil {
